@@ -10,7 +10,9 @@
 (*   open(key, since)        a watch request                               *)
 (*   line(key, rv)           a line (event or bookmark) released on it     *)
 (*   seen(o, rv, gone)       the consumer (an @on.event handler) got it    *)
-(*   fatal(key)              an unknown ERROR line was injected            *)
+(*   fatal(key, why)         an unknown ERROR line was injected ("line"),  *)
+(*                           or a list/watch request escalated after its   *)
+(*                           retries with a 5xx / 403 ("escalated")        *)
 (*   notfound(key)           a list/watch request for the pair got a 404   *)
 (*   check(served, watched)  checkpoint at rest: sets of pair keys         *)
 (***************************************************************************)
@@ -19,11 +21,12 @@ Traces == JsonDeserialize(IOEnv.TRACE_FILE)
 CONSTANT ObjsU
 VARIABLES tid, l, last, srvrv, srvgone, seenrv, seengone, fatal, nf, verdict
 vars == <<tid, l, last, srvrv, srvgone, seenrv, seengone, fatal, nf, verdict>>
+\* fatal: "no" | "line" (F15) | "escalated" (F32)
 T == Traces[tid].events
 E == T[l]
 Keys == {T[i].key : i \in {j \in DOMAIN T : T[j].ev \in {"list", "open", "line"}}}
 
-Init == /\ tid \in 1..Len(Traces) /\ l = 1 /\ verdict = "ok" /\ fatal = FALSE /\ nf = {}
+Init == /\ tid \in 1..Len(Traces) /\ l = 1 /\ verdict = "ok" /\ fatal = "no" /\ nf = {}
         /\ last = [k \in {} |-> 0]                          \* stream key -> version of the last list / released line
         /\ srvrv = [o \in ObjsU |-> 0] /\ srvgone = [o \in ObjsU |-> TRUE]
         /\ seenrv = [o \in ObjsU |-> 0] /\ seengone = [o \in ObjsU |-> TRUE]
@@ -56,7 +59,7 @@ Step ==
             /\ UNCHANGED <<last, srvrv, srvgone, fatal, verdict>>
        [] E.ev = "notfound" -> UNCHANGED <<last, srvrv, srvgone, seenrv, seengone, fatal, verdict>>
        [] E.ev = "fatal" ->
-            /\ fatal' = TRUE /\ UNCHANGED <<last, srvrv, srvgone, seenrv, seengone, verdict>>
+            /\ fatal' = (IF fatal = "no" THEN E.why ELSE fatal) /\ UNCHANGED <<last, srvrv, srvgone, seenrv, seengone, verdict>>
        [] E.ev = "check" ->
             /\ UNCHANGED <<last, srvrv, srvgone, seenrv, seengone, fatal>>
             /\ LET served == SetToSeq(E.served) watched == SetToSeq(E.watched)
@@ -64,12 +67,13 @@ Step ==
                    lost == \E o \in ObjsU : (~srvgone[o] /\ (seengone[o] \/ seenrv[o] # srvrv[o])) \/ (srvgone[o] /\ ~seengone[o])
                IN IF dup THEN Bad("two_watches_for_one_pair")
                   ELSE IF watched # served THEN
-                         (IF fatal THEN Bad("F15")
+                         (IF fatal = "line" THEN Bad("F15") ELSE IF fatal = "escalated" THEN Bad("F32")
                           \* F25: the watcher died of a 404 while its kind was being removed, the kind came back before the
                           \* operator rescanned, and nothing respawns the dead watcher
                           ELSE IF watched \subseteq served /\ (served \ watched) \subseteq nf THEN Bad("F25")
                           ELSE Bad("watches_differ_from_served_pairs"))
-                  ELSE IF E.settled /\ lost THEN (IF fatal THEN Bad("F15") ELSE Bad("a_change_never_reached_processing"))
+                  ELSE IF E.settled /\ lost THEN (IF fatal = "line" THEN Bad("F15") ELSE IF fatal = "escalated" THEN Bad("F32")
+                                                 ELSE Bad("a_change_never_reached_processing"))
                   ELSE UNCHANGED verdict
 Spec == Init /\ [][Step]_vars
 Book == IF l = Len(T) + 1 THEN TLCSet(1, [TLCGet(1) EXCEPT ![tid] = verdict]) ELSE TRUE
